@@ -30,11 +30,11 @@ def abstract(v):
         return f"{type(v).__name__}[{len(v)}]" + (":" + abstract(v[0]) if len(v) else "")
     if isinstance(v, dict):
         return "dict{" + ",".join(sorted(map(str, v.keys()))[:8]) + "}"
+    if inspect.ismodule(v):
+        return "module:" + v.__name__
     mod = type(v).__module__.split(".")[0]
     if hasattr(v, "dtype") and hasattr(v, "shape"):
         return f"{mod}.array:{v.dtype}:ndim{len(v.shape)}"
-    if inspect.ismodule(v):
-        return "module:" + v.__name__
     if callable(v) and not inspect.isclass(v):
         return "callable"
     return f"{type(v).__module__.split('.')[0]}.{type(v).__name__}"
@@ -86,7 +86,7 @@ def wrap(fn, qual):
                 if av not in s and len(s) < 12:
                     s.add(av)
                     _dirty += 1
-            if _dirty > 20:
+            if _dirty:  # pool workers are terminated without running exit handlers: write every new observation at once
                 flush()
         except Exception:
             pass
